@@ -6,6 +6,7 @@
 From V Require Import Common.Base C16.Checked C16.Spec C16.Wtf8 C16.Vlq16 C16.CssNum C16.Pieces C16.Packet C16.CssIdent C16.JsxEntities C16.CssLex C16.Globstar C16.JsLex C16.JsIdent C16.JsPragma
   C16.Proofs C16.Vlq16Proofs C16.GlobstarProofs C16.PanicSites C16.DecodeLoops.
 From V Require Import gen.PanicSitesGen gen.DecodeLoopsGen.
+From V Require Import C16.ClosingTag C16.ClosingTagProofs.
 From Coq Require Import String.
 
 (* helpers.DecodeWTF8Rune: every list of integers, whatever width is returned on truncation *)
@@ -250,3 +251,17 @@ Theorem mustcompile_sites_are_exactly : filter nonconst_mustcompile regexp_sites
           ["resolverQuery.parsePackageJSON"; "Resolver.ResolveGlob"; "validateRegex"; "compileFilter"]%string = true.
 Proof. exact (conj mustcompile_sites_none input_patterns_use_compile). Qed.
 Print Assumptions mustcompile_sites_are_exactly.
+
+(* helpers.EscapeClosingTag (raw bytes of legal comments, package paths, printed comments;
+   tag "/script", "/style" or ""): every tag, every text - the slice text[:len(slashTag)] is
+   guarded and every loop iteration consumes at least the '<' it found *)
+Theorem decoder_total_EscapeClosingTag : forall tag, total_on (fun _ => True) (EscapeClosingTag tag).
+Proof. exact total_EscapeClosingTag. Qed.
+Print Assumptions decoder_total_EscapeClosingTag.
+
+(* ... and what it computes: one left-to-right pass that puts a backslash after every '<'
+   followed by '/' and an ASCII-case-insensitive occurrence of the tag; nothing else changes *)
+Theorem EscapeClosingTag_is_one_pass_spec : forall tag text,
+  EscapeClosingTag tag text = Ok (match tag with [] => text | _ => esc_spec tag text end).
+Proof. exact EscapeClosingTag_is_spec. Qed.
+Print Assumptions EscapeClosingTag_is_one_pass_spec.
